@@ -194,7 +194,9 @@ Fixpoint bytes_eq (a b : list Z) : bool :=
   | _, _ => false
   end.
 
-(* Big.SetString as used by the evaluator (a failed or invalid conversion is NaN) *)
+(* Big.SetString as used by the evaluator (a failed or invalid conversion is NaN).  The library also reads
+   "infinity" followed by ANY further text as an infinity; the evaluator accepts an infinity only for exactly
+   inf / infinity (isInfinityText), which is what this definition gives - see num_of_text below. *)
 Definition dec_of_string (s : list Z) : dec :=
   let '(neg, s1) :=
     match s with
@@ -228,6 +230,48 @@ Definition dec_of_string (s : list Z) : dec :=
       let l := map lower s1 in
       if bytes_eq l [105; 110; 102] || bytes_eq l [105; 110; 102; 105; 110; 105; 116; 121] then Inf neg
       else NaN
+  end.
+
+(* the evaluator's own check on top of SetString (isDecimalText): an optional sign, digits with an optional point,
+   at least one digit before the exponent, and an exponent - if there is an 'e' - with at least one digit.
+   SetString alone also reads "." as 0 and "1e" as 1. *)
+Fixpoint skip_digits (s : list Z) : nat * list Z :=
+  match s with
+  | b :: t => if is_dig b then let '(n, r) := skip_digits t in (S n, r) else (O, s)
+  | [] => (O, [])
+  end.
+
+Definition skip_sign (s : list Z) : list Z :=
+  match s with
+  | 43 :: t => t
+  | 45 :: t => t
+  | _ => s
+  end.
+
+Definition is_decimal_text (s : list Z) : bool :=
+  let '(n1, r1) := skip_digits (skip_sign s) in
+  let '(n2, r2) := match r1 with 46 :: t => skip_digits t | _ => (O, r1) end in
+  match (n1 + n2)%nat with
+  | O => false
+  | S _ =>
+    match r2 with
+    | [] => true
+    | e :: r3 =>
+      if (e =? 101) || (e =? 69) then
+        let '(n3, r5) := skip_digits (skip_sign r3) in
+        match n3, r5 with
+        | S _, [] => true
+        | _, _ => false
+        end
+      else false
+    end
+  end.
+
+(* convToNumber on a string *)
+Definition num_of_text (s : list Z) : dec :=
+  match dec_of_string s with
+  | Fin n c e => if is_decimal_text s then Fin n c e else NaN
+  | d => d
   end.
 
 Fixpoint digits_of_go (fuel : nat) (c : Z) (acc : list Z) : list Z :=
